@@ -31,9 +31,10 @@ def _trace_conformance(ctx, tier, seed):
     lib.tlc_ok(r, "MC_C18")
     scs = r.replays
     random.Random(seed + 2).shuffle(scs)
+    recs = []
+    scs = [x for x in scs if len(x["roots"]) == 1]          # WalkerL has one root (several roots are Walker's)
     if tier == "quick":
         scs = scs[:400]
-    recs = []
     for k, scn in enumerate(scs):
         w, snap = ctx.world(scn["world"], None)
         for run in scn["runs"]:
@@ -43,7 +44,8 @@ def _trace_conformance(ctx, tier, seed):
             lib.run_fselect(argv, cwd, w.home, extra_env={"FSELECT_VERIF_TRACE": tf}, timeout=10)
             events = [json.loads(x) for x in open(tf)] if os.path.exists(tf) else []
             recs.append({"id": len(recs) + 1, "world": scn["world"], "root": scn["root"], "dfs": " dfs " in run["argv"][0],
-                         "follow": run["tag"] == "follow", "snapshot": snap, "topino": str(os.stat(w.paths[0]).st_ino),
+                         "follow": run["tag"] == "follow", "snapshot": snap,
+                         "min": 1 if " mindepth 1" in run["argv"][0] else 0, "max": 9 if " maxdepth 9" in run["argv"][0] else 0, "topino": str(os.stat(w.paths[0]).st_ino),
                          "events": [{"ev": e["ev"], "ino": e.get("ino", ""), "reported": e.get("reported", False),
                                      "descend": e.get("descend", "")} for e in events if e["ev"] in lib.WALK_EVENTS], "argv": argv})
     res = lib.validate_traces(ctx, "Trace_WalkerL", recs, shards=8)
